@@ -183,6 +183,19 @@ def step (s : St) (line : String) : St × String :=
           (s', showState s')
         else ({ s with w := w', running := false }, "sync-stuck")
       | none => (s, "bad-op")
+    | "startx" =>
+      match natOf rest "id", parseMode (kv rest "mode") with
+      | some id, some m =>
+        match s.blocks.get? id with
+        | some bi =>
+          if s.running || bi.bid.tail != s.tip || bi.bid == [] then (s, "bad-op") else
+          let (w', ok) := startupDuring s.cfg 0 s.batch s.w s.tip (connectNtfns s.content m bi.bid)
+          if ok then
+            let s' := { s with w := w', running := true, tip := bi.bid }
+            (s', showState s')
+          else ({ s with w := w', running := false, tip := bi.bid }, "sync-stuck")
+        | none => (s, "bad-op")
+      | _, _ => (s, "bad-op")
     | "state" => (s, showState s)
     | "hashes" =>
       match natOf rest "from", natOf rest "to" with
